@@ -63,7 +63,7 @@ macro_rules! setup {
 
 /// recv() blocked on an empty channel; the sender's try_send lands anywhere.
 #[kani::proof]
-#[kani::unwind(4)]
+#[kani::unwind(6)]
 fn c05_q_spsc_recv_vs_send() {
   setup!(1, 0, tx, rx);
   sched::install(a_send7, 1, 1);
@@ -78,7 +78,7 @@ fn c05_q_spsc_recv_vs_send() {
 
 /// send() blocked on a full channel; the receiver's try_recv lands anywhere.
 #[kani::proof]
-#[kani::unwind(4)]
+#[kani::unwind(5)]
 fn c05_q_spsc_send_vs_recv() {
   setup!(1, 1, tx, rx);
   sched::install(a_recv, 1, 1);
@@ -94,7 +94,7 @@ fn c05_q_spsc_send_vs_recv() {
 
 /// recv() blocked on an empty channel; the sender is dropped / closed anywhere: Disconnected.
 #[kani::proof]
-#[kani::unwind(4)]
+#[kani::unwind(5)]
 fn c05_t_spsc_recv_vs_sender_drop() {
   setup!(1, 0, tx, rx);
   sched::install(a_drop_tx, 1, 1);
@@ -108,7 +108,7 @@ fn c05_t_spsc_recv_vs_sender_drop() {
 
 /// recv() blocked on an empty channel; the sender is dropped / closed anywhere: Disconnected.
 #[kani::proof]
-#[kani::unwind(4)]
+#[kani::unwind(5)]
 fn c05_q_spsc_recv_vs_sender_close() {
   setup!(1, 0, tx, rx);
   sched::install(a_close_tx, 1, 1);
@@ -123,7 +123,7 @@ fn c05_q_spsc_recv_vs_sender_close() {
 /// send() blocked on a full channel; the receiver is dropped / closed anywhere: Closed.
 #[kani::proof]
 #[kani::unwind(4)]
-fn c05_q_spsc_send_vs_receiver_drop() {
+fn c05_t_spsc_send_vs_receiver_drop() {
   setup!(1, 1, tx, rx);
   sched::install(a_drop_rx, 1, 1);
   sched::set_stuck_is_bug(true);
@@ -136,7 +136,7 @@ fn c05_q_spsc_send_vs_receiver_drop() {
 
 /// send() blocked on a full channel; the receiver is dropped / closed anywhere: Closed.
 #[kani::proof]
-#[kani::unwind(4)]
+#[kani::unwind(5)]
 fn c05_q_spsc_send_vs_receiver_close() {
   setup!(1, 1, tx, rx);
   sched::install(a_close_rx, 1, 1);
@@ -151,7 +151,7 @@ fn c05_q_spsc_send_vs_receiver_close() {
 /// C04 straggler window: the last sender sends and is dropped while recv() is in flight: the value
 /// must be delivered, not Disconnected.
 #[kani::proof]
-#[kani::unwind(4)]
+#[kani::unwind(5)]
 fn c04_t_spsc_recv_vs_send_then_drop() {
   setup!(1, 0, tx, rx);
   sched::install(a_send7_then_drop, 1, 1);
@@ -166,7 +166,7 @@ fn c04_t_spsc_recv_vs_send_then_drop() {
 
 /// try_recv flavour of the same window (non-blocking).
 #[kani::proof]
-#[kani::unwind(4)]
+#[kani::unwind(5)]
 fn c04_q_spsc_try_recv_vs_send_then_drop() {
   setup!(1, 0, tx, rx);
   sched::install(a_send7_then_drop, 1, 1);
@@ -189,7 +189,7 @@ fn c04_q_spsc_try_recv_vs_send_then_drop() {
 
 /// C01 race: timed receive vs send. Timeout => the value is still in the channel; Ok => it is the value.
 #[kani::proof]
-#[kani::unwind(4)]
+#[kani::unwind(5)]
 fn c01_q_spsc_recv_timeout_vs_send() {
   setup!(1, 0, tx, rx);
   sched::install(a_send7, 1, 1);
@@ -247,7 +247,7 @@ fn c05_t_spsc_recv_batch_vs_send() {
 
 /// playback / driver self-test probe (never part of a property)
 #[kani::proof]
-#[kani::unwind(4)]
+#[kani::unwind(5)]
 fn zz_probe_playback() {
   setup!(1, 0, tx, rx);
   sched::install(a_send7, 1, 1);
